@@ -10,12 +10,13 @@ import tempfile
 import xml.etree.ElementTree as ET
 
 from harness.enc.atoms import FIXED, DYN_BASE, NS_141, Interner
-from harness.enc.xml2coq import Enc, INT_RE
+from harness.enc.xml2coq import Enc
 
 VERIF = os.path.dirname(os.path.dirname(os.path.dirname(os.path.abspath(__file__))))
 XSI = 'http://www.w3.org/2001/XMLSchema-instance'
 
-XSD_DOUBLE_RE = re.compile(r'^([+-]?(\d+\.?\d*([eE][+-]?\d+)?|\.\d+([eE][+-]?\d+)?)|NaN|-?INF)$')
+INT_RE = re.compile(r'^[+-]?[0-9]+$')      # ASCII digits only (\\d would take any Unicode digit)
+XSD_DOUBLE_RE = re.compile(r'^([+-]?([0-9]+\.?[0-9]*([eE][+-]?[0-9]+)?|\.[0-9]+([eE][+-]?[0-9]+)?)|NaN|-?INF)$')
 _START = ('A-Za-z_\u00C0-\u00D6\u00D8-\u00F6\u00F8-\u02FF\u0370-\u037D\u037F-\u1FFF\u200C-\u200D'
           '\u2070-\u218F\u2C00-\u2FEF\u3001-\uD7FF\uF900-\uFDCF\uFDF0-\uFFFD')
 _CHAR = _START + '0-9.\\-\u00B7\u0300-\u036F\u203F-\u2040'
@@ -48,12 +49,21 @@ def is_datetime(c):
 
 
 def is_anyuri(c):
-    """what libxml2 accepts as xs:anyURI (measured with xmllint): it escapes every character that is
-    not allowed in a URI before parsing, so only malformed %-escapes and a second fragment
-    separator are rejected"""
+    """what libxml2 accepts as xs:anyURI (calibrated with xmllint on every printable ASCII
+    character in four positions): it escapes the characters a URI may not contain before
+    parsing, so what is left to reject is a malformed %-escape, a second '#', a square bracket
+    outside the fragment, and a colon in the first path segment that does not end a scheme"""
     if c.count('#') > 1:
         return False
-    return all(URI_CHARS_RE.match(part) is not None for part in c.split('#'))
+    main, _, frag = c.partition('#')
+    if not URI_CHARS_RE.match(main) or not URI_CHARS_RE.match(frag):
+        return False
+    if '[' in main or ']' in main:
+        return False
+    first = re.split(r'[/?]', main, 1)[0]
+    if ':' in first and not re.match(r'^[A-Za-z][A-Za-z0-9+.\-]*:', first):
+        return False
+    return True
 
 
 def lex_flags(s):
